@@ -19,7 +19,9 @@ use iceoryx2::port::client::{Client, RequestSendError};
 use iceoryx2::port::server::Server;
 use iceoryx2::port::{LoanError, ReceiveError};
 use iceoryx2::prelude::*;
+use iceoryx2::request_mut::RequestMut;
 use iceoryx2::response::Response;
+use iceoryx2::response_mut::ResponseMut;
 use iceoryx2::service::port_factory::request_response::PortFactory;
 use seqx::{ensure, Fail, Harness, Plan, Tier};
 use serde::{Deserialize, Serialize};
@@ -100,8 +102,10 @@ struct Cfg {
     ff: bool,
     /// ReceiveResponse keeps the `Response` (released by ReleaseResponse / DropPending)
     hold: bool,
-    /// SetHint is part of the alphabet
+    /// SetHint and HasRequests are part of the alphabet
     hint: bool,
+    /// loan and send are separate operations (LoanRequest/SendLoaned/DropLoaned, LoanResponse/...)
+    loans: bool,
     /// client/server_expired_connection_buffer of the node configuration (default 128; a port
     /// allocates that many connection slots when it is created)
     expired: usize,
@@ -109,7 +113,7 @@ struct Cfg {
 
 impl Cfg {
     fn lim(&self) -> Lim {
-        Lim { a: self.a, b: self.b, r: self.r, ovf_req: self.ovf_req, ovf_resp: self.ovf_resp, ff: self.ff }
+        Lim { a: self.a, b: self.b, r: self.r, l: self.l, lr: self.lr, ovf_req: self.ovf_req, ovf_resp: self.ovf_resp, ff: self.ff }
     }
 }
 
@@ -123,6 +127,13 @@ enum Op {
     DropPending(u8, u8),
     DropActive(u8, u8),
     SetHint(u8, u8),
+    HasRequests(u8),
+    LoanRequest(u8),
+    SendLoaned(u8),
+    DropLoaned(u8),
+    LoanResponse(u8, u8),
+    SendLoanedResponse(u8, u8),
+    DropLoanedResponse(u8, u8),
     CreateClient,
     CreateServer,
     DropClient(u8),
@@ -153,12 +164,14 @@ struct PendR<S: Service> {
 }
 
 struct ClientR<S: Service> {
+    loaned: Vec<(RequestMut<S, Pay, (), Pay, ()>, Rid)>,
     pend: Vec<PendR<S>>,
     client: Client<S, Pay, (), Pay, ()>,
     uid: Uid,
 }
 
 struct ActR<S: Service> {
+    loaned: Vec<(ResponseMut<S, Pay, ()>, Pid)>,
     a: ActiveRequest<S, Pay, (), Pay, ()>,
     rid: Rid,
 }
@@ -192,9 +205,71 @@ struct World<S: Service> {
     resp_info: BTreeMap<Pid, RespInfo>,
     /// (server uid, rid) pairs a server has received
     req_received: BTreeMap<(Uid, Rid), ()>,
+    /// an oracle of another property failed: the rest of this execution is not judged
+    diverged: bool,
 }
 
 static NAME_COUNTER: AtomicU64 = AtomicU64::new(0);
+
+/// The inter-process flavour leaves a root directory and the domain-wide management segment
+/// (persistent by design) per worker process; whoever runs next removes those of dead processes.
+fn remove_leftovers_of_dead_processes() {
+    let alive = |pid: &str| std::path::Path::new(&format!("/proc/{pid}")).exists();
+    if let Ok(rd) = std::fs::read_dir("/verif/.run") {
+        for e in rd.flatten() {
+            let name = e.file_name().to_string_lossy().to_string();
+            if let Some(pid) = name.strip_prefix("h_reqres-") {
+                if pid.chars().all(|c| c.is_ascii_digit()) && !alive(pid) {
+                    let _ = std::fs::remove_dir_all(e.path());
+                }
+            }
+        }
+    }
+    if let Ok(rd) = std::fs::read_dir("/dev/shm") {
+        for e in rd.flatten() {
+            let name = e.file_name().to_string_lossy().to_string();
+            if let Some(rest) = name.strip_prefix("hrr") {
+                let pid: String = rest.chars().take_while(|c| c.is_ascii_digit()).collect();
+                if !pid.is_empty() && rest[pid.len()..].starts_with('_') && !alive(&pid) {
+                    let _ = std::fs::remove_file(e.path());
+                }
+            }
+        }
+    }
+}
+
+/// Which property does an oracle (tag) belong to? A failing oracle of another property ends the
+/// execution silently: the violation is reported by the run that is started for that property.
+fn owned(p: Prop, tag: &str) -> bool {
+    const ALWAYS: &[&str] = &["setup", "harness", "request-send-error", "request-receive-error", "response-send-error", "response-receive-error", "request-payload-corrupt", "response-payload-corrupt"];
+    const C02: &[&str] = &["request-payload-changed", "response-payload-changed", "request-loan-capacity", "response-loan-capacity", "capacity-not-restored", "request-loan-failed-within-limits", "response-loan-failed-within-limits"];
+    const C08: &[&str] = &[
+        "client-create-failed",
+        "server-create-failed",
+        "request-over-limit-wrong-error",
+        "request-loan-failed-within-limits",
+        "response-loan-failed-within-limits",
+        "request-receive-refused-within-limit",
+        "response-receive-refused-within-limit",
+        "request-refused-within-limit",
+        "active-request-limit-not-enforced",
+        "response-borrow-limit-not-enforced",
+        "request-loan-limit",
+        "response-loan-limit",
+        "response-over-limit-wrong-error",
+        "limit-not-restored",
+    ];
+    /// limit oracles that C11 states as well ("the limits on active requests and buffered responses hold")
+    const C11_TOO: &[&str] = &["request-refused-within-limit", "active-request-limit-not-enforced", "response-borrow-limit-not-enforced"];
+    if ALWAYS.contains(&tag) {
+        return true;
+    }
+    match p {
+        Prop::C02 => C02.contains(&tag),
+        Prop::C08 => C08.contains(&tag),
+        Prop::C11 => C11_TOO.contains(&tag) || !(C02.contains(&tag) || C08.contains(&tag)),
+    }
+}
 
 fn f(tag: &str, site: impl Into<String>, detail: impl Into<String>) -> Fail {
     Fail::new(tag, site, detail)
@@ -207,6 +282,16 @@ impl<S: Service> World<S> {
         let name = format!("h_reqres_{}_{}_{}", if cfg.ipc { "i" } else { "l" }, std::process::id(), n);
         let name: ServiceName = name.as_str().try_into().map_err(|e| f("setup", "service-name", format!("{e:?}")))?;
         let mut config = Config::default();
+        if cfg.ipc {
+            // own domain per process: files below /verif/.run, shared-memory names with a pid prefix
+            let pid = std::process::id();
+            static HOUSEKEEPING: std::sync::Once = std::sync::Once::new();
+            HOUSEKEEPING.call_once(remove_leftovers_of_dead_processes);
+            let root = format!("/verif/.run/h_reqres-{pid}");
+            std::fs::create_dir_all(&root).map_err(|e| f("setup", "mkdir", format!("{e:?}")))?;
+            config.global.set_root_path(&Path::new(root.as_bytes()).map_err(|e| f("setup", "root-path", format!("{e:?}")))?);
+            config.global.prefix = FileName::new(format!("hrr{pid}_").as_bytes()).map_err(|e| f("setup", "prefix", format!("{e:?}")))?;
+        }
         config.defaults.request_response.client_expired_connection_buffer = cfg.expired;
         config.defaults.request_response.server_expired_connection_buffer = cfg.expired;
         let node = NodeBuilder::new().config(&config).create::<S>().map_err(|e| f("setup", "node", format!("{e:?}")))?;
@@ -239,6 +324,7 @@ impl<S: Service> World<S> {
             req_owner: BTreeMap::new(),
             resp_info: BTreeMap::new(),
             req_received: BTreeMap::new(),
+            diverged: false,
         };
         if cfg.clients_first {
             for _ in 0..cfg.init_clients {
@@ -309,7 +395,7 @@ impl<S: Service> World<S> {
             .map_err(|e| f("client-create-failed", "within-max-clients", format!("{e:?} although only {} of {} clients exist", self.clients.iter().flatten().count(), self.cfg.max_clients)))?;
         let uid = self.next_uid;
         self.next_uid += 1;
-        self.clients[idx] = Some(ClientR { pend: Vec::new(), client, uid });
+        self.clients[idx] = Some(ClientR { loaned: Vec::new(), pend: Vec::new(), client, uid });
         self.all(|s| s.create_client(idx, uid));
         Ok(())
     }
@@ -352,19 +438,29 @@ impl<S: Service> World<S> {
     }
 
     // ---- basic operations
-    fn send_request(&mut self, c: u8) -> Result<bool, Fail> {
+    fn send_request(&mut self, c: u8, from_loan: bool) -> Result<bool, Fail> {
         let lim = self.lim();
         let ci = c as usize;
-        let rid = self.next_rid;
-        let pay = req_payload(rid);
-        let cl = self.client(c)?;
+        self.client(c)?;
+        let (res, rid) = if from_loan {
+            let cl = self.clients[ci].as_mut().unwrap();
+            ensure!(!cl.loaned.is_empty(), "harness", "send-loaned", "nothing loaned");
+            let (req, rid) = cl.loaned.remove(0);
+            (req.send(), rid)
+        } else {
+            let rid = self.next_rid;
+            self.next_rid += 1;
+            (self.clients[ci].as_ref().unwrap().client.send_copy(req_payload(rid)), rid)
+        };
+        let cl = self.clients[ci].as_ref().unwrap();
         let uid = cl.uid;
-        let res = cl.client.send_copy(pay);
+        let npend = cl.pend.len();
+        let nloans = self.m().clients[ci].as_ref().map(|c| c.loans).unwrap_or(0);
         let (real, pending) = match res {
             Ok(p) => (Obs::Sent { ok: true, nconn: p.number_of_server_connections() }, Some(p)),
             Err(RequestSendError::ExceedsMaxActiveRequests) => (Obs::Sent { ok: false, nconn: 0 }, None),
+            Err(RequestSendError::SendError(iceoryx2::port::SendError::LoanError(LoanError::ExceedsMaxLoans))) if !from_loan && nloans >= self.cfg.l => (Obs::SentNoLoan, None),
             Err(e) => {
-                let npend = cl.pend.len();
                 let is_loan = matches!(e, RequestSendError::SendError(iceoryx2::port::SendError::LoanError(_)));
                 if is_loan && self.prop == Prop::C11 {
                     // the request was not sent; whether a loan may fail for lack of memory and
@@ -378,22 +474,21 @@ impl<S: Service> World<S> {
                 } else {
                     "request-loan-failed-within-limits"
                 };
-                return Err(f(tag, format!("{e:?}"), format!("send_copy on client {c} with {npend} of {} active requests returned {e:?}", self.cfg.a)));
+                return Err(f(tag, format!("{e:?}"), format!("send on client {c} with {npend} of {} active requests and {nloans} of {} loans returned {e:?}", self.cfg.a, self.cfg.l)));
             }
         };
         if pending.is_some() {
-            self.next_rid += 1;
             self.req_owner.insert(rid, uid);
         }
-        let r = self.filter(&real, |s| s.send_request(&lim, ci, rid));
+        let r = self.filter(&real, |s| s.send_request(&lim, ci, rid, from_loan));
         if let Err(exp) = r {
-            let npend = self.client(c)?.pend.len();
             let (tag, site) = match (&real, exp.first()) {
                 (Obs::Sent { ok: true, .. }, Some(Obs::Sent { ok: false, .. })) => ("active-request-limit-not-enforced", "send beyond max_active_requests_per_client"),
                 (Obs::Sent { ok: false, .. }, Some(Obs::Sent { ok: true, .. })) => ("request-refused-within-limit", "ExceedsMaxActiveRequests below max_active_requests_per_client"),
+                (Obs::Sent { .. }, Some(Obs::SentNoLoan)) => ("request-loan-limit", "send_copy although every loan is taken"),
                 _ => ("request-recipient-count", "number_of_server_connections"),
             };
-            return Err(f(self.c08(tag), site, format!("client {c} holds {npend} pending responses (limit {}): real {real:?}, model allows {exp:?}", self.cfg.a)));
+            return Err(f(tag, site, format!("client {c} holds {npend} pending responses (limit {}) and {nloans} loans (limit {}): real {real:?}, model allows {exp:?}", self.cfg.a, self.cfg.l)));
         }
         if let Some(p) = pending {
             self.clients[ci].as_mut().unwrap().pend.push(PendR { held: Vec::new(), p, rid });
@@ -401,6 +496,61 @@ impl<S: Service> World<S> {
         } else {
             Ok(false)
         }
+    }
+
+    fn loan_request(&mut self, c: u8) -> Result<(), Fail> {
+        let ci = c as usize;
+        let l = self.cfg.l;
+        let cl = self.client(c)?;
+        let npend = cl.pend.len();
+        let nloans = self.m().clients[ci].as_ref().map(|c| c.loans).unwrap_or(0);
+        match cl.client.loan_uninit() {
+            Ok(r) => {
+                ensure!(nloans < l, "request-loan-limit", "more loans than max_loaned_requests", "client {} already holds {} request loans (limit {}) and obtained another one", c, nloans, l);
+                let rid = self.next_rid;
+                self.next_rid += 1;
+                let req = r.write_payload(req_payload(rid));
+                self.clients[ci].as_mut().unwrap().loaned.push((req, rid));
+                self.all(|m| m.clients[ci].as_mut().unwrap().loans += 1);
+                Ok(())
+            }
+            Err(LoanError::ExceedsMaxLoans) => {
+                ensure!(nloans >= l, "request-loan-limit", "fewer loans than max_loaned_requests", "client {} holds {} request loans (limit {}) and {} pending responses: loan refused with ExceedsMaxLoans", c, nloans, l, npend);
+                Ok(())
+            }
+            Err(e) => {
+                let tag = if nloans < l { "request-loan-failed-within-limits" } else { "request-over-limit-wrong-error" };
+                Err(f(tag, format!("{e:?}"), format!("client {c} holds {nloans} request loans (limit {l}) and {npend} pending responses: loan_uninit returned {e:?}")))
+            }
+        }
+    }
+
+    fn drop_loaned(&mut self, c: u8) -> Result<(), Fail> {
+        let ci = c as usize;
+        self.client(c)?;
+        let cl = self.clients[ci].as_mut().unwrap();
+        ensure!(!cl.loaned.is_empty(), "harness", "drop-loaned", "nothing loaned");
+        drop(cl.loaned.remove(0));
+        self.all(|m| {
+            let l = &mut m.clients[ci].as_mut().unwrap().loans;
+            *l = l.saturating_sub(1);
+        });
+        Ok(())
+    }
+
+    fn has_requests(&mut self, s: u8) -> Result<(), Fail> {
+        let lim = self.lim();
+        let si = s as usize;
+        let real = self.server(s)?.server.has_requests().map_err(|e| f("request-receive-error", format!("{e:?}"), format!("server {s}: has_requests returned {e:?}")))?;
+        self.all(|m| m.attach(si));
+        let ok: Vec<Spec> = self.cands.iter().filter(|m| m.expect_has_requests(&lim, si).admits(real)).cloned().collect();
+        if ok.is_empty() {
+            let exp = self.m().expect_has_requests(&lim, si);
+            let tag = if real { "has-requests-without-request" } else { "has-requests-misses-request" };
+            return Err(f(tag, "Server::has_requests", format!("server {s}: has_requests() == {real}, the model expects {exp:?}")));
+        }
+        self.cands = ok;
+        Ok(())
     }
 
     /// returns Some(true) = request received, Some(false) = none, None = ExceedsMaxBorrows
@@ -435,7 +585,12 @@ impl<S: Service> World<S> {
                 return Err(f("request-duplicate", "server-receive", format!("server {s} received request serial {rid} a second time")));
             }
         }
-        let r = self.filter(&real, |m| m.recv_request(&lim, si));
+        let mut r = self.filter(&real, |m| m.recv_request(&lim, si));
+        if r.is_err() && self.prop == Prop::C11 && real == Obs::ReqErrBorrows {
+            // no deliverable request is withheld: whether receive() may report ExceedsMaxBorrows
+            // below the limit is judged under C08
+            r = self.filter(&Obs::Req(None), |m| m.recv_request(&lim, si));
+        }
         if let Err(exp) = r {
             let holds = self.server(s)?.act.len();
             let (tag, site): (&str, String) = match (&real, exp.first()) {
@@ -455,28 +610,95 @@ impl<S: Service> World<S> {
         match active {
             Some((a, rid)) => {
                 self.req_received.insert((suid, rid), ());
-                self.servers[si].as_mut().unwrap().act.push(ActR { a, rid });
+                self.servers[si].as_mut().unwrap().act.push(ActR { loaned: Vec::new(), a, rid });
                 Ok(Some(true))
             }
             None => Ok(if real == Obs::ReqErrBorrows { None } else { Some(false) }),
         }
     }
 
-    fn send_response(&mut self, s: u8, k: u8) -> Result<(), Fail> {
+    fn send_response(&mut self, s: u8, k: u8, from_loan: bool) -> Result<(), Fail> {
         let lim = self.lim();
         let (si, ki) = (s as usize, k as usize);
-        let pid = self.next_pid;
-        let ar = self.act(s, k)?;
-        let rid = ar.rid;
-        let res = ar.a.send_copy(resp_payload(rid, pid));
-        self.next_pid += 1;
+        self.act(s, k)?;
+        let nloans = self.m().servers[si].as_ref().map(|s| s.act[ki].loans).unwrap_or(0);
+        let (res, rid, pid) = if from_loan {
+            let ar = &mut self.servers[si].as_mut().unwrap().act[ki];
+            ensure!(!ar.loaned.is_empty(), "harness", "send-loaned-response", "nothing loaned");
+            let (resp, pid) = ar.loaned.remove(0);
+            (resp.send(), ar.rid, pid)
+        } else {
+            let pid = self.next_pid;
+            self.next_pid += 1;
+            let ar = &self.servers[si].as_ref().unwrap().act[ki];
+            (ar.a.send_copy(resp_payload(ar.rid, pid)), ar.rid, pid)
+        };
         self.resp_info.insert(pid, RespInfo { received: false });
-        if let Err(e) = res {
-            let alive = self.m().req_alive(rid);
-            let tag = if matches!(e, iceoryx2::port::SendError::LoanError(_)) { "response-loan-failed-within-limits" } else { "response-send-error" };
-            return Err(f(self.c08(tag), format!("{e:?}"), format!("send_copy through active request {s}/{k} (request {rid}, pending response alive: {alive}) returned {e:?}; no response loan is outstanding")));
+        if from_loan {
+            self.all(|m| {
+                let l = &mut m.servers[si].as_mut().unwrap().act[ki].loans;
+                *l = l.saturating_sub(1);
+            });
+        }
+        match res {
+            Ok(()) => {
+                ensure!(from_loan || nloans < self.cfg.lr, "response-loan-limit", "send_copy although every loan is taken", "active request {}/{} holds {} response loans (limit {}) and send_copy succeeded", s, k, nloans, self.cfg.lr);
+            }
+            Err(iceoryx2::port::SendError::LoanError(LoanError::ExceedsMaxLoans)) if !from_loan && nloans >= self.cfg.lr => {
+                // send_copy needs a loan and the user holds all of them: nothing was sent
+                return Ok(());
+            }
+            Err(e) => {
+                if matches!(e, iceoryx2::port::SendError::LoanError(_)) && self.prop == Prop::C11 {
+                    // nothing was sent; judged under C08 / C02
+                    return Ok(());
+                }
+                let alive = self.m().req_alive(rid);
+                let tag = if matches!(e, iceoryx2::port::SendError::LoanError(_)) { "response-loan-failed-within-limits" } else { "response-send-error" };
+                return Err(f(tag, format!("{e:?}"), format!("send through active request {s}/{k} (request {rid}, pending response alive: {alive}, {nloans} of {} response loans held) returned {e:?}", self.cfg.lr)));
+            }
         }
         self.all(|m| m.send_response(&lim, si, ki, pid));
+        Ok(())
+    }
+
+    fn loan_response(&mut self, s: u8, k: u8) -> Result<(), Fail> {
+        let (si, ki) = (s as usize, k as usize);
+        let lr = self.cfg.lr;
+        let ar = self.act(s, k)?;
+        let rid = ar.rid;
+        let nloans = self.m().servers[si].as_ref().map(|s| s.act[ki].loans).unwrap_or(0);
+        match ar.a.loan_uninit() {
+            Ok(r) => {
+                ensure!(nloans < lr, "response-loan-limit", "more loans than max_loaned_responses_per_request", "active request {}/{} already holds {} response loans (limit {}) and obtained another one", s, k, nloans, lr);
+                let pid = self.next_pid;
+                self.next_pid += 1;
+                let resp = r.write_payload(resp_payload(rid, pid));
+                self.servers[si].as_mut().unwrap().act[ki].loaned.push((resp, pid));
+                self.all(|m| m.servers[si].as_mut().unwrap().act[ki].loans += 1);
+                Ok(())
+            }
+            Err(LoanError::ExceedsMaxLoans) => {
+                ensure!(nloans >= lr, "response-loan-limit", "fewer loans than max_loaned_responses_per_request", "active request {}/{} holds {} response loans (limit {}): loan refused with ExceedsMaxLoans", s, k, nloans, lr);
+                Ok(())
+            }
+            Err(e) => {
+                let tag = if nloans < lr { "response-loan-failed-within-limits" } else { "response-over-limit-wrong-error" };
+                Err(f(tag, format!("{e:?}"), format!("active request {s}/{k} holds {nloans} response loans (limit {lr}): loan_uninit returned {e:?}")))
+            }
+        }
+    }
+
+    fn drop_loaned_response(&mut self, s: u8, k: u8) -> Result<(), Fail> {
+        let (si, ki) = (s as usize, k as usize);
+        self.act(s, k)?;
+        let ar = &mut self.servers[si].as_mut().unwrap().act[ki];
+        ensure!(!ar.loaned.is_empty(), "harness", "drop-loaned-response", "nothing loaned");
+        drop(ar.loaned.remove(0));
+        self.all(|m| {
+            let l = &mut m.servers[si].as_mut().unwrap().act[ki].loans;
+            *l = l.saturating_sub(1);
+        });
         Ok(())
     }
 
@@ -580,8 +802,9 @@ impl<S: Service> World<S> {
         let ci = c as usize;
         self.client(c)?;
         let cl = self.clients[ci].take().unwrap();
-        let ClientR { pend, client, .. } = cl;
-        // pending responses (and the responses they hold) first, in creation order, then the port
+        let ClientR { loaned, pend, client, .. } = cl;
+        // loans, then pending responses (and the responses they hold) in creation order, then the port
+        drop(loaned);
         for p in pend {
             drop(p);
         }
@@ -605,7 +828,8 @@ impl<S: Service> World<S> {
 
     // ---- probes
     fn loan_probe(&mut self, c: u8) -> Result<(), Fail> {
-        let l = self.cfg.l;
+        let outstanding = self.m().clients[c as usize].as_ref().map(|c| c.loans).unwrap_or(0);
+        let l = self.cfg.l.saturating_sub(outstanding);
         let cl = self.client(c)?;
         let npend = cl.pend.len();
         let mut loans = Vec::new();
@@ -624,14 +848,15 @@ impl<S: Service> World<S> {
         let tag_mem = if self.prop == Prop::C02 { "request-loan-capacity" } else { "request-loan-limit" };
         match err {
             Some(LoanError::ExceedsMaxLoans) if n == l => Ok(()),
-            Some(LoanError::ExceedsMaxLoans) => Err(f(tag_mem, "fewer loans than max_loaned_requests", format!("client {c} with {npend} pending responses and no outstanding loan obtained {n} request loans, configured {l}"))),
-            Some(e) => Err(f(tag_mem, format!("{e:?}"), format!("client {c} with {npend} pending responses and no outstanding loan: loan number {} failed with {e:?} (max_loaned_requests {l})", n + 1))),
+            Some(LoanError::ExceedsMaxLoans) => Err(f(tag_mem, "fewer loans than max_loaned_requests", format!("client {c} with {npend} pending responses and {outstanding} outstanding loans obtained {n} more request loans, expected {l}"))),
+            Some(e) => Err(f(tag_mem, format!("{e:?}"), format!("client {c} with {npend} pending responses and {outstanding} outstanding loans: additional loan number {} failed with {e:?} ({l} more expected)", n + 1))),
             None => Err(f(tag_mem, "more loans than max_loaned_requests", format!("client {c} obtained {n} request loans, configured {l}"))),
         }
     }
 
     fn response_loan_probe(&mut self, s: u8, k: u8) -> Result<(), Fail> {
-        let lr = self.cfg.lr;
+        let outstanding = self.m().servers[s as usize].as_ref().and_then(|x| x.act.get(k as usize)).map(|a| a.loans).unwrap_or(0);
+        let lr = self.cfg.lr.saturating_sub(outstanding);
         let ar = self.act(s, k)?;
         let mut loans = Vec::new();
         let mut err = None;
@@ -649,8 +874,8 @@ impl<S: Service> World<S> {
         let tag_mem = if self.prop == Prop::C02 { "response-loan-capacity" } else { "response-loan-limit" };
         match err {
             Some(LoanError::ExceedsMaxLoans) if n == lr => Ok(()),
-            Some(LoanError::ExceedsMaxLoans) => Err(f(tag_mem, "fewer loans than max_loaned_responses_per_request", format!("active request {s}/{k} with no outstanding loan obtained {n} response loans, configured {lr}"))),
-            Some(e) => Err(f(tag_mem, format!("{e:?}"), format!("active request {s}/{k} with no outstanding loan: loan number {} failed with {e:?} (max_loaned_responses_per_request {lr})", n + 1))),
+            Some(LoanError::ExceedsMaxLoans) => Err(f(tag_mem, "fewer loans than max_loaned_responses_per_request", format!("active request {s}/{k} with {outstanding} outstanding loans obtained {n} more response loans, expected {lr}"))),
+            Some(e) => Err(f(tag_mem, format!("{e:?}"), format!("active request {s}/{k} with {outstanding} outstanding loans: additional loan number {} failed with {e:?} ({lr} more expected)", n + 1))),
             None => Err(f(tag_mem, "more loans than max_loaned_responses_per_request", format!("active request {s}/{k} obtained {n} response loans, configured {lr}"))),
         }
     }
@@ -708,7 +933,12 @@ impl<S: Service> World<S> {
                             }
                             ("has-response-without-response", m.classify_phantom_response(*c, *k), format!("PendingResponse {c}/{k}::has_response() == true (receive() hands out nothing)"))
                         } else {
-                            ("has-response-misses-response", "buffered response".to_string(), format!("PendingResponse {c}/{k}::has_response() == false"))
+                            let pr = &self.clients[*c].as_ref().unwrap().pend[*k];
+                            let got = pr.p.receive().map(|r| r.map(|r| *r.payload()));
+                            if let Ok(None) = got {
+                                return Err(f("response-lost", m.classify_lost_response(pr.rid), format!("pending response {c}/{k} of request {}: a response that was sent and buffered (model: {:?}) is gone: has_response() == false and receive() == None", pr.rid, m.reqs.get(&pr.rid).map(|r| r.links.values().map(|l| l.fifo.clone()).collect::<Vec<_>>()))));
+                            }
+                            ("has-response-misses-response", "buffered response".to_string(), format!("PendingResponse {c}/{k}::has_response() == false but receive() returns {got:?}"))
                         }
                     }
                     spec::Watch::ActConnected(s, k) => {
@@ -730,6 +960,10 @@ impl<S: Service> World<S> {
     fn check_payloads(&self) -> Result<(), Fail> {
         for (ci, cl) in self.clients.iter().enumerate() {
             if let Some(cl) = cl {
+                for (r, rid) in &cl.loaned {
+                    let now: Pay = *r.payload();
+                    ensure!(now == req_payload(*rid), "request-payload-changed", "loaned RequestMut", "payload of a loaned request of client {} (request {}) reads {:x?}", ci, rid, now);
+                }
                 for (ki, p) in cl.pend.iter().enumerate() {
                     let now: Pay = *p.p.payload();
                     ensure!(now == req_payload(p.rid), "request-payload-changed", "PendingResponse::payload", "request payload of pending response {}/{} (request {}) reads {:x?}", ci, ki, p.rid, now);
@@ -743,6 +977,10 @@ impl<S: Service> World<S> {
         for (si, sv) in self.servers.iter().enumerate() {
             if let Some(sv) = sv {
                 for (ki, a) in sv.act.iter().enumerate() {
+                    for (r, pid) in &a.loaned {
+                        let now: Pay = *r.payload();
+                        ensure!(now == resp_payload(a.rid, *pid), "response-payload-changed", "loaned ResponseMut", "payload of a loaned response of active request {}/{} reads {:x?}", si, ki, now);
+                    }
                     let now: Pay = *a.a.payload();
                     ensure!(now == req_payload(a.rid), "request-payload-changed", "held ActiveRequest", "payload of active request {}/{} (request {}) reads {:x?}", si, ki, a.rid, now);
                 }
@@ -752,14 +990,36 @@ impl<S: Service> World<S> {
     }
 
     fn apply(&mut self, op: &Op) -> Result<(), Fail> {
+        if self.diverged {
+            return Ok(());
+        }
+        match self.apply_judged(op) {
+            Err(fail) if !owned(self.prop, &fail.tag) => {
+                self.diverged = true;
+                Ok(())
+            }
+            r => r,
+        }
+    }
+
+    fn apply_judged(&mut self, op: &Op) -> Result<(), Fail> {
         match op {
             Op::SendRequest(c) => {
-                self.send_request(*c)?;
+                self.send_request(*c, false)?;
             }
+            Op::SendLoaned(c) => {
+                self.send_request(*c, true)?;
+            }
+            Op::LoanRequest(c) => self.loan_request(*c)?,
+            Op::DropLoaned(c) => self.drop_loaned(*c)?,
+            Op::HasRequests(s) => self.has_requests(*s)?,
+            Op::LoanResponse(s, k) => self.loan_response(*s, *k)?,
+            Op::SendLoanedResponse(s, k) => self.send_response(*s, *k, true)?,
+            Op::DropLoanedResponse(s, k) => self.drop_loaned_response(*s, *k)?,
             Op::ReceiveRequest(s) => {
                 self.receive_request(*s)?;
             }
-            Op::SendResponse(s, k) => self.send_response(*s, *k)?,
+            Op::SendResponse(s, k) => self.send_response(*s, *k, false)?,
             Op::ReceiveResponse(c, k) => {
                 self.receive_response(*c, *k)?;
             }
@@ -776,7 +1036,7 @@ impl<S: Service> World<S> {
             Op::SaturateRequests(c) => {
                 // up to the limit every send must succeed, the next one must be refused
                 let mut guard = 0;
-                while self.send_request(*c)? {
+                while self.send_request(*c, false)? {
                     self.observe()?;
                     guard += 1;
                     ensure!(guard <= self.cfg.a + 1, "active-request-limit-not-enforced", "saturation", "client {} sent {} requests without being refused", c, guard);
@@ -792,7 +1052,7 @@ impl<S: Service> World<S> {
             }
             Op::FillResponses(s, k) => {
                 for _ in 0..self.cfg.b + 1 {
-                    self.send_response(*s, *k)?;
+                    self.send_response(*s, *k, false)?;
                     self.observe()?;
                 }
             }
@@ -819,6 +1079,9 @@ impl<S: Service> World<S> {
     fn enabled(&self) -> Vec<Op> {
         let m = self.m();
         let mut v = Vec::new();
+        if self.diverged {
+            return v;
+        }
         for (c, cl) in m.clients.iter().enumerate() {
             if cl.is_some() {
                 v.push(Op::SendRequest(c as u8));
@@ -860,7 +1123,38 @@ impl<S: Service> World<S> {
                 }
             }
         }
+        if self.cfg.loans {
+            for (c, cl) in m.clients.iter().enumerate() {
+                if let Some(cl) = cl {
+                    if cl.loans <= self.cfg.l {
+                        v.push(Op::LoanRequest(c as u8));
+                    }
+                    if cl.loans > 0 {
+                        v.push(Op::SendLoaned(c as u8));
+                        v.push(Op::DropLoaned(c as u8));
+                    }
+                }
+            }
+            for (s, sv) in m.servers.iter().enumerate() {
+                if let Some(sv) = sv {
+                    for (k, a) in sv.act.iter().enumerate() {
+                        if a.loans <= self.cfg.lr {
+                            v.push(Op::LoanResponse(s as u8, k as u8));
+                        }
+                        if a.loans > 0 {
+                            v.push(Op::SendLoanedResponse(s as u8, k as u8));
+                            v.push(Op::DropLoanedResponse(s as u8, k as u8));
+                        }
+                    }
+                }
+            }
+        }
         if self.cfg.hint {
+            for (s, sv) in m.servers.iter().enumerate() {
+                if sv.is_some() {
+                    v.push(Op::HasRequests(s as u8));
+                }
+            }
             for (c, cl) in m.clients.iter().enumerate() {
                 if let Some(cl) = cl {
                     for (k, p) in cl.pend.iter().enumerate() {
@@ -933,6 +1227,7 @@ impl<S: Service> World<S> {
         let tag = if self.prop == Prop::C02 { "capacity-not-restored" } else { "limit-not-restored" };
         // release everything
         for cl in self.clients.iter_mut().flatten() {
+            cl.loaned.clear();
             cl.pend.clear();
         }
         for sv in self.servers.iter_mut().flatten() {
@@ -1005,11 +1300,17 @@ impl<S: Service> World<S> {
         }
         for (ci, p) in &pend {
             let mut n = 0;
+            let mut foreign = 0;
             loop {
                 match p.receive() {
                     Ok(Some(r)) => {
-                        ensure!(decode_resp(r.payload()).map(|x| x.0) == Some(2_000_000), tag, "foreign response", "after releasing everything a fresh pending response of client {} received {:x?}", ci, *r.payload());
-                        n += 1;
+                        // responses that belong to other requests are the business of C11
+                        if decode_resp(r.payload()).map(|x| x.0) == Some(2_000_000) {
+                            n += 1;
+                        } else {
+                            foreign += 1;
+                            ensure!(foreign < 64, tag, "too many responses", "fresh pending response of client {} keeps receiving responses", ci);
+                        }
                     }
                     Ok(None) => break,
                     Err(e) => return Err(f(tag, format!("response receive: {e:?}"), format!("fresh pending response of client {ci}: {e:?}"))),
@@ -1022,11 +1323,12 @@ impl<S: Service> World<S> {
     }
 
     fn finish(mut self) -> Result<(), Fail> {
-        let r = if self.prop != Prop::C11 { self.capacity_is_back() } else { Ok(()) };
+        let r = if self.prop != Prop::C11 && !self.diverged { self.capacity_is_back() } else { Ok(()) };
         // orderly teardown: samples, streams, ports, service, node
         for cl in self.clients.iter_mut() {
             if let Some(c) = cl.take() {
-                let ClientR { pend, client, .. } = c;
+                let ClientR { loaned, pend, client, .. } = c;
+                drop(loaned);
                 drop(pend);
                 drop(client);
             }
@@ -1045,6 +1347,9 @@ impl<S: Service> World<S> {
     }
 
     fn key(&self) -> u64 {
+        if self.diverged {
+            return 0xD1FE_26ED;
+        }
         let mut v: Vec<Vec<u32>> = self.cands.iter().map(|c| c.canon()).collect();
         v.sort();
         seqx::hash_of(&v)
@@ -1078,6 +1383,7 @@ fn base(a: usize, b: usize, ovf_req: bool, ovf_resp: bool, ff: bool) -> Cfg {
         ff,
         hold: false,
         hint: false,
+        loans: false,
         expired: 8,
     }
 }
@@ -1141,8 +1447,8 @@ impl Harness for H {
 
     fn nontrivial(&self, s: &Sys) -> bool {
         match s {
-            Sys::Local(w) => w.next_rid > 1,
-            Sys::Ipc(w) => w.next_rid > 1,
+            Sys::Local(w) => w.next_rid > 1 && !w.diverged,
+            Sys::Ipc(w) => w.next_rid > 1 && !w.diverged,
         }
     }
 
@@ -1184,7 +1490,7 @@ fn configs(tier: Tier) -> Vec<(Cfg, Plan)> {
     let less = match p {
         Prop::C11 => 0,
         Prop::C02 => 1,
-        Prop::C08 => 1,
+        Prop::C08 => 2,
     };
     let mut v: Vec<(Cfg, Plan)> = Vec::new();
     let mut add = |c: Cfg, quick_depth: usize, thorough_depth: usize, split: u32| {
@@ -1256,10 +1562,28 @@ fn configs(tier: Tier) -> Vec<(Cfg, Plan)> {
         }
         add(c, 5, 6, 4);
     }
-    // disconnect hint
-    for r in [OA8[0], OA8[5]] {
-        let mut c = row(2, r);
+    // disconnect hint, has_requests
+    for (i, r) in [OA8[0], OA8[5], OA8[6]].into_iter().enumerate() {
+        let mut c = row(if i == 2 { 1 } else { 2 }, r);
         c.hint = true;
+        if i == 2 {
+            c.max_clients = 2;
+            c.init_clients = 2;
+        }
+        add(c, 5, 7, 4);
+    }
+    // loan and send as separate steps
+    for (i, r) in [OA8[1], OA8[2], OA8[4], OA8[7]].into_iter().enumerate() {
+        let mut c = row(1 + i % 2, r);
+        c.loans = true;
+        if i >= 2 {
+            c.l = 2;
+            c.lr = 2;
+        }
+        if i == 3 {
+            c.dynamic_clients = true;
+            c.dynamic_servers = true;
+        }
         add(c, 5, 7, 4);
     }
     if !quick {
@@ -1285,6 +1609,17 @@ fn configs(tier: Tier) -> Vec<(Cfg, Plan)> {
     v
 }
 
+extern "C" {
+    fn mallopt(param: i32, value: i32) -> i32;
+}
+
 fn main() {
+    // Every execution builds and tears down ports with large tables; keep the freed memory in
+    // the heap instead of returning it to the kernel and faulting it in again (glibc:
+    // M_TRIM_THRESHOLD = -1, M_MMAP_THRESHOLD = -3). Pure performance tuning of the harness process.
+    unsafe {
+        mallopt(-1, 1 << 30);
+        mallopt(-3, 32 << 20);
+    }
     seqx::main(H);
 }
